@@ -177,10 +177,18 @@ def run(entries, workname, design_L=None, design_ws=(), product_depth=8, do_prod
             for d in r.lines.get('REJECT', []):
                 d['trace'] = tr_by_id.get(d['id'])
                 res.rejects[d['g']].append(d)
+        # what the validated executions consist of: observer events by kind, printed lines by the specification action
+        # they correspond to (one action of Driver.tla per line pattern / message text)
+        import traces as tl
         for e in withtr:
             for t in e.traces:
                 for ev in t['events']:
-                    res.event_kinds[ev[0] if ev[0] != 'L' else 'line'] += 1
+                    if ev[0] != 'L':
+                        res.event_kinds[ev[0]] += 1
+                        continue
+                    res.event_kinds['line'] += 1
+                    c = tl.classify(ev[1])
+                    res.event_kinds['line:' + (c[0] if c[0] != 'msg' else c[3].strip())] += 1
     return res, work
 
 
